@@ -344,6 +344,18 @@ class ConsoleThreadLocals(threading.local):
     buffer_index: int = 0
 
 
+class NewLine:
+    """A renderable to generate new line(s)"""
+
+    def __init__(self, count: int = 1) -> None:
+        self.count = count
+
+    def __rich_console__(
+        self, console: "Console", options: "ConsoleOptions"
+    ) -> Iterable[Segment]:
+        yield Segment("\n" * self.count)
+
+
 class RenderHook(ABC):
     """Provides hooks in to the render process."""
 
@@ -793,8 +805,7 @@ class Console:
 
         assert count >= 0, "count must be >= 0"
         if count:
-            self._buffer.append(Segment("\n" * count))
-            self._check_buffer()
+            self.print(NewLine(count))
 
     def clear(self, home: bool = True) -> None:
         """Clear the screen.
